@@ -31,6 +31,7 @@ import (
 	tmmath "github.com/tendermint/tendermint/libs/math"
 	"github.com/tendermint/tendermint/light"
 	"github.com/tendermint/tendermint/light/provider"
+	lstore "github.com/tendermint/tendermint/light/store"
 	dbs "github.com/tendermint/tendermint/light/store/db"
 	tmproto "github.com/tendermint/tendermint/proto/tendermint/types"
 	tmversion "github.com/tendermint/tendermint/proto/tendermint/version"
@@ -171,6 +172,7 @@ type blkDesc struct {
 	app            int
 	basic, commit  bool
 	sign           []int
+	badsig, nilv   []int
 	lb             *types.LightBlock
 	hashID         int
 	hash           []byte
@@ -214,24 +216,40 @@ func (b *blkDesc) buildLB() {
 	sigs := make([]types.CommitSig, vals.Size())
 	for i, v := range vals.Validators {
 		id := addrID[string(v.Address)]
-		signed := false
-		for _, s := range b.sign {
-			if s == id {
-				signed = true
+		in := func(l []int) bool {
+			for _, s := range l {
+				if s == id {
+					return true
+				}
 			}
+			return false
 		}
-		if !signed {
+		switch {
+		case in(b.sign), in(b.badsig):
+			vote := &types.Vote{Type: tmproto.PrecommitType, Height: ch, Round: 0, BlockID: blockID,
+				Timestamp: hdr.Time, ValidatorAddress: v.Address, ValidatorIndex: int32(i)}
+			sig, err := privs[id].Sign(types.VoteSignBytes(hdr.ChainID, vote.ToProto()))
+			if err != nil {
+				panic(err)
+			}
+			if in(b.badsig) {
+				sig = append([]byte{}, sig...)
+				sig[3] ^= 0x40
+			}
+			sigs[i] = types.CommitSig{BlockIDFlag: types.BlockIDFlagCommit, ValidatorAddress: v.Address,
+				Timestamp: hdr.Time, Signature: sig}
+		case in(b.nilv):
+			vote := &types.Vote{Type: tmproto.PrecommitType, Height: ch, Round: 0,
+				Timestamp: hdr.Time, ValidatorAddress: v.Address, ValidatorIndex: int32(i)}
+			sig, err := privs[id].Sign(types.VoteSignBytes(hdr.ChainID, vote.ToProto()))
+			if err != nil {
+				panic(err)
+			}
+			sigs[i] = types.CommitSig{BlockIDFlag: types.BlockIDFlagNil, ValidatorAddress: v.Address,
+				Timestamp: hdr.Time, Signature: sig}
+		default:
 			sigs[i] = types.NewCommitSigAbsent()
-			continue
 		}
-		vote := &types.Vote{Type: tmproto.PrecommitType, Height: ch, Round: 0, BlockID: blockID,
-			Timestamp: hdr.Time, ValidatorAddress: v.Address, ValidatorIndex: int32(i)}
-		sig, err := privs[id].Sign(types.VoteSignBytes(hdr.ChainID, vote.ToProto()))
-		if err != nil {
-			panic(err)
-		}
-		sigs[i] = types.CommitSig{BlockIDFlag: types.BlockIDFlagCommit, ValidatorAddress: v.Address,
-			Timestamp: hdr.Time, Signature: sig}
 	}
 	b.lb = &types.LightBlock{
 		SignedHeader: &types.SignedHeader{Header: hdr, Commit: types.NewCommit(ch, 0, blockID, sigs)},
@@ -556,23 +574,36 @@ func (g *gate) close() {
 // ---------------------------------------------------------------- case environment
 
 type env struct {
-	mu     sync.Mutex
-	vss    map[int]*vsDesc
-	blks   map[int]*blkDesc
-	provs  map[int]*prov
-	vsIDs  map[string]int
-	hdrIDs map[string]int
-	client *light.Client
-	store  interface {
-		LightBlock(int64) (*types.LightBlock, error)
-		Size() uint16
-	}
+	mu       sync.Mutex
+	vss      map[int]*vsDesc
+	blks     map[int]*blkDesc
+	provs    map[int]*prov
+	vsIDs    map[string]int
+	hdrIDs   map[string]int
+	client   *light.Client
+	store    lightStore
 	maxH     int64
 	evidence []string
 	gate     *gate
 	curOp    int
 	replies  []reply
 	dead     bool
+}
+
+type lightStore = lstore.Store
+
+func (e *env) showStore() string {
+	var st []string
+	for h := int64(1); h <= e.maxH; h++ {
+		if lb, err := e.store.LightBlock(h); err == nil {
+			st = append(st, e.showBlk(lb))
+		}
+	}
+	store := "-"
+	if len(st) > 0 {
+		store = strings.Join(st, ",")
+	}
+	return fmt.Sprintf("store=%s size=%d", store, e.store.Size())
 }
 
 func (e *env) logReply(r reply) {
@@ -639,6 +670,10 @@ func classify(err error) string {
 		return "prov-toohigh"
 	case errors.As(err, &e4), errors.As(err, &e5):
 		return "prov-bad"
+	case strings.Contains(s, "existing trusted header"):
+		return "msg-existing"
+	case strings.Contains(s, "does not match newHeader"):
+		return "msg-mismatch"
 	case strings.Contains(s, "can't get signed header before height"):
 		return "msg-before"
 	case strings.Contains(s, "can't get first light block"):
@@ -655,8 +690,14 @@ func classify(err error) string {
 		return "msg-height"
 	case strings.Contains(s, "does not match primary"):
 		return "conflicting"
+	case strings.Contains(s, "invalid signed header"), strings.Contains(s, "expected validator hash of header to match"),
+		strings.Contains(s, "invalid validator set"):
+		return "msg-basic"
+	case strings.Contains(s, "invalid commit:"):
+		return "msg-commit"
 	case strings.Contains(s, "trustLevel has zero Denominator"), strings.Contains(s, "trustLevel numerator and denominator must not exceed"),
-		strings.Contains(s, "int64 overflow while calculating voting power needed"):
+		strings.Contains(s, "int64 overflow while calculating voting power needed"), strings.Contains(s, "wrong signature (#"),
+		strings.Contains(s, "double vote from"):
 		return "commit-other"
 	case strings.Contains(s, "invalid TrustOptions"):
 		return "msg-options"
@@ -813,7 +854,20 @@ func execCase(c core.Case) []string {
 				break
 			}
 			v := &vsDesc{pairs: pairs}
-			v.hash = v.build().Hash()
+			built := v.build()
+			ord, okOrd := natList(m["ord"])
+			if _, has := m["ord"]; !has || !okOrd || len(ord) != built.Size() {
+				break
+			}
+			for i, val := range built.Validators {
+				if addrID[string(val.Address)] != ord[i] {
+					good = false
+				}
+			}
+			if !good {
+				break
+			}
+			v.hash = built.Hash()
 			v.id = internID(e.vsIDs, v.hash)
 			e.vss[id] = v
 			res = fmt.Sprintf("vs %d", v.id)
@@ -911,6 +965,35 @@ func execCase(c core.Case) []string {
 			if !e.dead {
 				res += " " + e.showClient()
 			}
+		case "cleanup":
+			if e.client == nil || len(f) != 1 {
+				break
+			}
+			res = e.clientCall(nil, func() string {
+				if err := e.client.Cleanup(); err != nil {
+					return "err " + classify(err)
+				}
+				return "ok"
+			})
+			if !e.dead {
+				res += " " + e.showClient()
+			}
+		case "vheader":
+			bi, ok1 := natOf(m, "blk")
+			now, ok2 := intOf(m, "now")
+			order, ok3 := natList(m["order"])
+			if _, has := m["order"]; e.client == nil || !ok1 || !ok2 || !ok3 || !has || e.blks[bi] == nil {
+				break
+			}
+			res = e.clientCall(order, func() string {
+				if err := e.client.VerifyHeader(context.Background(), e.blks[bi].fresh().Header, msTime(now)); err != nil {
+					return "err " + classify(err)
+				}
+				return "ok"
+			})
+			if !e.dead {
+				res += " " + e.showClient()
+			}
 		case "level":
 			if len(f) == 3 {
 				a, err1 := strconv.ParseUint(f[1], 10, 64)
@@ -965,7 +1048,11 @@ func (e *env) parseBlk(m map[string]string) (*blkDesc, bool) {
 	basic, ok10 := natOf(m, "basic")
 	commit, ok11 := natOf(m, "commit")
 	sign, ok12 := natList(m["sign"])
-	if _, has := m["sign"]; !has || !(ok && ok2 && ok3 && ok4 && ok5 && ok6 && ok7 && ok8 && ok9 && ok10 && ok11 && ok12) {
+	badsig, ok13 := natList(m["badsig"])
+	nilv, ok14 := natList(m["nilv"])
+	_, has2 := m["badsig"]
+	_, has3 := m["nilv"]
+	if _, has := m["sign"]; !has || !has2 || !has3 || !(ok && ok2 && ok3 && ok4 && ok5 && ok6 && ok7 && ok8 && ok9 && ok10 && ok11 && ok12 && ok13 && ok14) {
 		return nil, false
 	}
 	vals, hv, next := e.vss[vi], e.vss[hvi], e.vss[ni]
@@ -979,19 +1066,21 @@ func (e *env) parseBlk(m map[string]string) (*blkDesc, bool) {
 			return nil, false
 		}
 	}
-	for _, s := range sign {
+	seenID := map[int]bool{}
+	for _, s := range append(append(append([]int{}, sign...), badsig...), nilv...) {
 		in := false
 		for _, p := range vals.pairs {
 			if p[0] == s {
 				in = true
 			}
 		}
-		if !in {
+		if !in || seenID[s] {
 			return nil, false
 		}
+		seenID[s] = true
 	}
 	return &blkDesc{id: id, chain: chain, h: h, t: t, vals: vals, hv: hv, next: next, last: lastB, app: app,
-		basic: basic != 0, commit: commit != 0, sign: sign}, true
+		basic: basic != 0, commit: commit != 0, sign: sign, badsig: badsig, nilv: nilv}, true
 }
 
 func (e *env) opNew(m map[string]string) string {
@@ -1039,24 +1128,53 @@ func (e *env) opNew(m map[string]string) string {
 	} else {
 		opts = append(opts, light.SkippingVerification(tmmath.Fraction{Numerator: uint64(num), Denominator: uint64(den)}))
 	}
-	st := dbs.New(dbm.NewMemDB(), chainName(chain))
-	e.client = nil
-	e.evidence = nil
-	for _, p := range e.provs {
-		p.calls = 0
+	keep, hasKeep := m["keep"]
+	withOpts := true
+	var st lightStore
+	if hasKeep {
+		if keep != "1" || e.store == nil {
+			return "bad-op"
+		}
+		o, ok := natOf(m, "opts")
+		if !ok {
+			return "bad-op"
+		}
+		withOpts = o != 0
+		st = e.store
+	} else {
+		st = dbs.New(dbm.NewMemDB(), chainName(chain))
+		e.store = nil
+		e.evidence = nil
+		for _, p := range e.provs {
+			p.calls = 0
+		}
 	}
+	e.client = nil
 	var cl *light.Client
 	res := e.clientCall(order, func() string {
-		c, err := light.NewClient(context.Background(), chainName(chain),
-			light.TrustOptions{Period: time.Duration(period) * time.Millisecond, Height: h, Hash: trustHash},
-			prim, wits, st, opts...)
+		var c *light.Client
+		var err error
+		if withOpts {
+			c, err = light.NewClient(context.Background(), chainName(chain),
+				light.TrustOptions{Period: time.Duration(period) * time.Millisecond, Height: h, Hash: trustHash},
+				prim, wits, st, opts...)
+		} else {
+			c, err = light.NewClientFromTrustedStore(chainName(chain), time.Duration(period)*time.Millisecond,
+				prim, wits, st, opts...)
+		}
 		if err != nil {
 			return "err " + classify(err)
 		}
 		cl = c
 		return "ok"
 	})
-	if cl == nil || e.dead {
+	if e.dead {
+		return res
+	}
+	if cl == nil {
+		if hasKeep {
+			return res + " " + e.showStore()
+		}
 		return res
 	}
 	e.client = cl
@@ -1187,12 +1305,51 @@ func oracle(c core.Case, out []string) []core.Finding {
 			b.hashID = internID(e.hdrIDs, b.hash)
 			e.blks[b.id] = b
 			byHash[b.hashID] = append(byHash[b.hashID], b)
-		case "new", "verify", "update":
+		case "new", "verify", "update", "vheader", "cleanup":
 			res, st, ev, _, _, ok := parseStore(out[i])
+			if f[0] == "cleanup" {
+				if ok && len(st) > 0 {
+					fs = append(fs, core.Finding{Fingerprint: "light.Cleanup.leaves-blocks", Desc: fmt.Sprintf("Cleanup left %v in the trusted store", st)})
+				}
+				if ok {
+					prev = st
+				}
+				continue
+			}
 			if f[0] == "new" {
+				_, keep := m["keep"]
 				haveClient = false
-				prev = nil
-				prevEv = 0
+				if !keep {
+					prev = nil
+					prevEv = 0
+				}
+				if !ok { // a failed fresh constructor prints no store
+					continue
+				}
+				withOpts := true
+				if keep {
+					o, _ := natOf(m, "opts")
+					withOpts = o != 0
+				}
+				// the only header a constructor may add is the one the trust options name
+				hid, _ := natOf(m, "hash")
+				want := -2
+				if b := e.blks[hid]; b != nil && withOpts {
+					want = b.hashID
+				}
+				for _, s := range st {
+					isNew := true
+					for _, q := range prev {
+						if q == s {
+							isNew = false
+						}
+					}
+					if isNew && s.hash != want {
+						fs = append(fs, core.Finding{Fingerprint: "light.NewClient.stores-header-other-than-trust-root",
+							Desc: fmt.Sprintf("op %d: the constructor stored %d:%d but the trust options name hash id %d (store before: %v)", i, s.h, s.hash, want, prev)})
+					}
+				}
+				prev = st
 				if strings.HasPrefix(out[i], "ok ") {
 					haveClient = true
 					ch, _ := natOf(m, "chain")
@@ -1207,19 +1364,6 @@ func oracle(c core.Case, out []string) []core.Finding {
 					if seqMode {
 						p.num, p.den = 1, 3
 					}
-					// the trust root: the stored block must carry the hash the user supplied
-					hid, _ := natOf(m, "hash")
-					want := -2
-					if b := e.blks[hid]; b != nil {
-						want = b.hashID
-					}
-					for _, s := range st {
-						if s.hash != want {
-							fs = append(fs, core.Finding{Fingerprint: "light.NewClient.stores-header-other-than-trust-root",
-								Desc: fmt.Sprintf("NewClient stored %d:%d but the trust options name hash id %d", s.h, s.hash, want)})
-						}
-					}
-					prev = st
 				}
 				continue
 			}
@@ -1437,7 +1581,9 @@ func (e *env) backs(p params, provID int, replies []reply, prev []storeEntry, bl
 	cur := root
 	for h := root.h + 1; h <= blk.h; h++ {
 		nb := at[h]
-		if nb == nil || !stepOK(p, cur, nb, now) {
+		// a block with a broken signature in it is not "fully backed": the verifiers may meet the
+		// broken slot before the threshold
+		if nb == nil || len(nb.badsig) > 0 || !stepOK(p, cur, nb, now) {
 			return false
 		}
 		cur = nb
@@ -1448,7 +1594,14 @@ func (e *env) backs(p params, provID int, replies []reply, prev []storeEntry, bl
 var _ = hex.EncodeToString
 var _ = sort.Ints
 
+var lifeStats = map[string]int{}
+
 func selfCheck() {
+	defer func() {
+		for k, v := range lifeStats {
+			fmt.Println(v, k)
+		}
+	}()
 	r := rand.New(rand.NewSource(1))
 	n := 0
 	generate(r, "quick", func(c core.Case) {
@@ -1456,6 +1609,17 @@ func selfCheck() {
 		c.ID = fmt.Sprintf("g%d", n)
 		a := execCase(c)
 		b := execCase(c)
+		for i, op := range c.Ops {
+			if strings.Contains(op, "keep=1") || strings.HasPrefix(op, "vheader") || op == "cleanup" {
+				k := strings.Fields(op)[0]
+				if strings.Contains(op, "opts=0") {
+					k = "restart"
+				} else if strings.Contains(op, "opts=1") {
+					k = "restart+options"
+				}
+				lifeStats[k+" -> "+strings.Join(strings.Fields(a[i])[:min(2, len(strings.Fields(a[i])))], " ")]++
+			}
+		}
 		for i := range a {
 			if a[i] != b[i] {
 				fmt.Printf("NONDET case %s op %d: %s\n  1: %s\n  2: %s\n", c.ID, i, c.Ops[i], a[i], b[i])
